@@ -45,11 +45,11 @@ Proof.
 Qed.
 
 (* `pyscn analyze . sub/` in /w with the default patterns: every file once; test files
-   excluded at every depth; .pyi stubs included at every depth; .hid and build skipped *)
+   excluded at every depth; .pyi stubs not selected by the default include pattern, every .py file at any depth, which
+   is the same with and without a configuration file (C17); .hid and build skipped *)
 Example ex_overlapping_targets :
   analyze_default ex_world [s_w] [rel_path [dot]; rel_path [s_sub; []]] =
-  Some [rel_path [s_a_py]; rel_path [s_s_pyi]; rel_path [s_sub; s_b_py];
-        rel_path [s_sub; s_deep; s_c_py]; rel_path [s_sub; s_t_pyi]].
+  Some [rel_path [s_a_py]; rel_path [s_sub; s_b_py]; rel_path [s_sub; s_deep; s_c_py]].
 Proof. vm_compute. reflexivity. Qed.
 
 Example ex_targets_ok : Forall (file_target_ok ex_world [s_w]) [rel_path [dot]; rel_path [s_sub; []]].
@@ -78,7 +78,7 @@ Example ex_file_target :
   analyze_default ex_world [s_w] [rel_path [s_sub; s_test_n]] = Some [] /\
   analyze_default ex_world [s_w; s_sub] [mkpath true [s_w; s_sub; s_b_py]] = Some [mkpath true [s_w; s_sub; s_b_py]] /\
   analyze_default ex_world [s_w] [rel_path [s_sub; s_b_py]; rel_path [dot; s_sub; []]; mkpath true [s_w; s_sub; s_b_py]]
-    = Some [rel_path [s_sub; s_b_py]; rel_path [s_sub; s_deep; s_c_py]; rel_path [s_sub; s_t_pyi]].
+    = Some [rel_path [s_sub; s_b_py]; rel_path [s_sub; s_deep; s_c_py]].
 Proof. vm_compute. repeat split; reflexivity. Qed.
 
 (* a missing target fails the run *)
